@@ -130,14 +130,15 @@ def main(argv=None):
 
     replay_paths = []
     if violations:
-        os.makedirs(os.path.join(lib.VERIF, 'replays', prop), exist_ok=True)
+        rdir = os.path.join(os.environ.get('VERIF_REPLAY_DIR') or os.path.join(lib.VERIF, 'replays'), prop)
+        os.makedirs(rdir, exist_ok=True)
         seen = set()
         for v in violations:
             s = findings.sig(v['record'])
             if s in seen:
                 continue
             seen.add(s)
-            path = os.path.join(lib.VERIF, 'replays', prop, findings.case_hash(v['case']) + '.json')
+            path = os.path.join(rdir, findings.case_hash(v['case']) + '.json')
             with open(path, 'w') as f:
                 json.dump({'property': prop, 'case': v['case'], 'record': v['record'], 'count': v.get('count', 1),
                            'origin': v.get('origin', 'generated'), 'seed': seed, 'tier': tier,
@@ -235,8 +236,8 @@ def print_triage(prop, merged, violations):
         v = min(vs, key=lambda v: len(json.dumps(v['case'], default=repr)))
         cfgs = sorted({json.dumps(x['record']['config'], sort_keys=True) for x in vs})
         print(f'-- [{n}] kind={b[0]} site={b[1]} features={list(b[2])} configs={cfgs[:4]}')
-        print('   case:', json.dumps(v['case'], default=repr, ensure_ascii=False)[:700])
-        print('   detail:', v['record']['detail'][:500])
+        print('   case:', json.dumps(v['case'], default=repr, ensure_ascii=False)[:int(os.environ.get('VF_TRIAGE_WIDTH', '420'))])
+        print('   detail:', v['record']['detail'][:int(os.environ.get('VF_TRIAGE_WIDTH', '420'))])
 
 
 def emit_known(prop, violations, path):
